@@ -99,6 +99,25 @@ pub fn packet_id_exhaustion_cases(s: &mut Session, rng: &mut Rng) {
     }
 }
 
+/// every udp association of the real server draws its own server session id: replies to different client
+/// sessions never share a (server session id, packet id) pair (= never a (key, nonce) pair for the 2022 AES ciphers)
+fn server_session_cases(s: &mut Session, rng: &mut Rng) {
+    use crate::e2e_gen::*;
+    for cfg in protocol_ciphers(rng) {
+        if cfg.protocol != "shadowsocks" || !cfg.cipher.starts_with("2022") || cfg.users != "-" {
+            continue;
+        }
+        s.begin_case(&format!("server-session-ids:{}", cfg.cipher));
+        let Some(w) = cfg.start(s, false, 2) else { continue };
+        let r = s.run(&format!("e2e.ssid {} sessions=3 per=2", w));
+        if r != "distinct" {
+            s.oracle_fail(&format!("udp-server-ids:{}", cfg.cipher), &format!("replies to different client sessions share server session id / packet id: `{}`", r));
+        }
+        s.run(&format!("e2e.stop {}", w));
+        s.mark_nontrivial();
+    }
+}
+
 pub fn generate(s: &mut Session, tier: &str, rng: &mut Rng) {
     let Some(mut cr) = Crafter::new() else {
         s.begin_case("no-driver");
@@ -107,6 +126,7 @@ pub fn generate(s: &mut Session, tier: &str, rng: &mut Rng) {
     };
     nonce_generator_cases(s, tier, rng);
     packet_id_exhaustion_cases(s, rng);
+    server_session_cases(s, rng);
     let sessions = if tier == "thorough" { 2000 } else { 96 };
     for cipher in CIPHERS {
         s.begin_case(&format!("ss:{}", cipher));
